@@ -540,6 +540,159 @@ pub fn grow_drain_history(rep: &mut Report, rng: &mut Rng) {
 	rep.distinct_hash(fnv(format!("grow-drain {} {:?}", n_keys, hist.iter().take(30).collect::<Vec<_>>()).as_bytes()));
 }
 
+/// Histories built around size thresholds: `n` distinct keys (around the
+/// capacities at which a hash index grows: 14/15, 28/29, 56/57, 112/113,
+/// 224/225, 448/449) or `d` duplicates of one key (around 32, 64, 128),
+/// followed by every tail of up to 3 pushes over {an early key, another early
+/// key, a new key}, followed by one operation out of a list that touches the
+/// head, the middle and the last positions. Each case is replayed from the
+/// empty object and checked like any other history.
+pub fn threshold_histories(rep: &mut Report, shard: usize, shards: usize, san: bool) {
+	let mut case_no = 0usize;
+	let mut run_case = |rep: &mut Report, prefix: &[Op], op: Op| {
+		case_no += 1;
+		if case_no % shards != shard {
+			return;
+		}
+		rep.evaluations += 1;
+		rep.distinct_by_construction(1);
+		rep.count("threshold_histories", 1);
+		let mut obj = Object::new();
+		let mut m = Model::new();
+		let mut fresh = Fresh(0);
+		let mut fail: Option<String> = None;
+		for o in prefix.iter().chain(std::iter::once(&op)) {
+			rep.count("operations_applied", 1);
+			match guard(|| apply(o, &mut obj, &mut m, &mut fresh)) {
+				Ok(Ok(())) => {}
+				Ok(Err(e)) => {
+					fail = Some(format!("{:?}: {}", o, e));
+					break;
+				}
+				Err(p) => {
+					fail = Some(format!("{:?}: panic: {}", o, p));
+					break;
+				}
+			}
+		}
+		if fail.is_none() {
+			match guard(|| check_state(&obj, &m)) {
+				Ok(Ok(st)) => {
+					rep.count("queries_checked", st.queries);
+					rep.count("states_checked", 1);
+					rep.max("largest_object_entries", m.entries.len() as u64);
+					rep.max("most_distinct_keys", st.buckets as u64);
+					rep.max("largest_bucket_capacity", st.capacity as u64);
+				}
+				Ok(Err(e)) => fail = Some(e),
+				Err(p) => fail = Some(format!("panic in queries: {}", p)),
+			}
+		}
+		if let Some(e) = fail {
+			let mut ops: Vec<serde_json::Value> = prefix.iter().map(op_json).collect();
+			ops.push(op_json(&op));
+			rep.violation(
+				format!("C06:threshold:{}", op_name(&op)),
+				format!("{} pushes, then {:?}: {}", prefix.len(), op, e),
+				json!({"sub": "history", "ops": ops}),
+			);
+		}
+	};
+	let final_ops = |len: usize, keys: &[String]| -> Vec<Op> {
+		let mut v = Vec::new();
+		let mut pos: Vec<usize> = vec![0, 1, len / 2];
+		for back in 1..=5 {
+			if len >= back {
+				pos.push(len - back);
+			}
+		}
+		pos.push(len);
+		pos.sort();
+		pos.dedup();
+		for p in pos {
+			v.push(Op::RemoveAt(p));
+		}
+		for k in keys {
+			for c in CONSUMES {
+				v.push(Op::Remove(k.clone(), c));
+				v.push(Op::Insert(k.clone(), c));
+				v.push(Op::InsertFront(k.clone(), c));
+			}
+			v.push(Op::RemoveUnique(k.clone()));
+			v.push(Op::Push(k.clone()));
+			v.push(Op::PushFront(k.clone()));
+			v.push(Op::GetMutOrInsertWith(k.clone()));
+			v.push(Op::GetMut(k.clone()));
+		}
+		v.push(Op::Sort);
+		v.push(Op::Canonicalize);
+		v.push(Op::CloneFromIntoUsed);
+		v.push(Op::IntoIterRebuild);
+		v
+	};
+	// (1) many distinct keys
+	let sizes: &[usize] = if san { &[14, 15, 113] } else { &[3, 7, 8, 14, 15, 16, 28, 29, 56, 57, 112, 113, 120, 224, 225, 300, 448, 449] };
+	for &n in sizes {
+		let base: Vec<Op> = (0..n).map(|j| Op::Push(format!("k{}", j))).collect();
+		let tail_keys = ["k0".to_string(), format!("k{}", n / 2), "zz".to_string()];
+		let mut tails: Vec<Vec<usize>> = vec![vec![]];
+		let mut layer: Vec<Vec<usize>> = vec![vec![]];
+		for _ in 0..(if san { 2 } else { 3 }) {
+			let mut next = Vec::new();
+			for t in &layer {
+				for k in 0..3 {
+					let mut x = t.clone();
+					x.push(k);
+					next.push(x);
+				}
+			}
+			tails.extend(next.iter().cloned());
+			layer = next;
+		}
+		for t in &tails {
+			let mut prefix = base.clone();
+			for &k in t {
+				prefix.push(Op::Push(tail_keys[k].clone()));
+			}
+			let len = prefix.len();
+			let keys = [tail_keys[0].clone(), tail_keys[2].clone(), format!("k{}", n - 1)];
+			for op in final_ops(len, &keys) {
+				run_case(rep, &prefix, op);
+			}
+		}
+	}
+	// (2) many duplicates of one key, other keys before, between and after them
+	let dups: &[usize] = if san { &[3, 64] } else { &[2, 3, 4, 31, 32, 33, 63, 64, 65, 66, 100, 127, 128, 129, 200] };
+	for &d in dups {
+		for layout in 0..6usize {
+			let mut prefix: Vec<Op> = Vec::new();
+			if layout % 2 == 1 {
+				prefix.push(Op::Push("a".into()));
+			}
+			for j in 0..d {
+				prefix.push(Op::Push("dup".into()));
+				if layout >= 4 && j % 16 == 7 {
+					prefix.push(Op::Push("b".into()));
+				}
+			}
+			match layout % 3 {
+				0 => {}
+				1 => prefix.push(Op::Push("c".into())),
+				_ => {
+					prefix.push(Op::Push("c".into()));
+					prefix.push(Op::Push("a".into()));
+					prefix.push(Op::Push("dup".into()));
+				}
+			}
+			let len = prefix.len();
+			let keys = ["dup".to_string(), "a".to_string(), "c".to_string()];
+			for op in final_ops(len, &keys) {
+				run_case(rep, &prefix, op);
+			}
+		}
+	}
+}
+
 pub fn run(cfg: &Config) -> i32 {
 	let started = Instant::now();
 	let thorough = cfg.tier == Tier::Thorough;
@@ -572,6 +725,17 @@ pub fn run(cfg: &Config) -> i32 {
 		total.merge(r);
 		extra.insert("distinct_abstract_states_1_key".into(), json!(st));
 		extra.insert("distinct_index_shapes_1_key".into(), json!(sh));
+	}
+
+	// histories around size thresholds (distinct keys, duplicates of one key)
+	{
+		let san = cfg.san;
+		let rep = parallel(cfg.threads, 64, |i| {
+			let mut rep = Report::new();
+			threshold_histories(&mut rep, i, 64, san);
+			rep
+		});
+		total.merge(rep);
 	}
 
 	// random histories: few keys / many duplicates, and many keys / growth cycles
@@ -619,7 +783,7 @@ pub fn run(cfg: &Config) -> i32 {
 		cfg,
 		EvidenceMeta {
 			id: "C06",
-			rule: "a case is one operation history replayed from the empty object; exhaustive families enumerate every history up to the length bound over 1, 2 and 3 keys and every continuation of length <= 2 (thorough 3) from every start state of 3..5 (6) entries over 2 keys (each history counted once, distinct by construction); random histories are counted by a hash of their first 40 operations; after the last operation of every history prefix the object is compared with the ordered-list model (entries, result of the operation, 10 kinds of key query for every key and an absent key, index representation invariant through the hook); non-trivial = at least one operation",
+			rule: "a case is one operation history replayed from the empty object; exhaustive families enumerate every history up to the length bound over 1, 2 and 3 keys and every continuation of length <= 2 (thorough 3) from every start state of 3..5 (6) entries over 2 keys (each history counted once, distinct by construction); threshold histories: n distinct keys (3..449, around the capacities at which the index grows) or d duplicates of one key (2..200) followed by every tail of up to 3 pushes over an early key / a middle key / a new key and then one operation out of ~45 touching head, middle and the last five positions, every key class and every way of consuming a removal iterator; random histories are counted by a hash of their first 40 operations; after the last operation of every history prefix the object is compared with the ordered-list model (entries, result of the operation, 10 kinds of key query for every key and an absent key, index representation invariant through the hook); non-trivial = at least one operation",
 			exhaustive: false,
 			assumptions: vec![
 				"the model (harness/src/oracle/objmodel.rs) states the documented semantics; where the documentation is silent (remove_unique on duplicates removes all matching entries and reports the first two) the model follows the observable behaviour of the pinned tree".into(),
